@@ -2001,6 +2001,21 @@ int _GD_Tokenise(DIRFILE *restrict D, const struct parser_state *restrict p,
       }
     }
   }
+
+  /* a numeric escape sequence may be ended by the end of the string */
+  if (*ip == '\0' && escaped_char && acc_mode != ACC_MODE_NONE) {
+    if (acc_mode == ACC_MODE_UTF8) {
+      if (!_GD_UTF8Encode(D, p->file, p->line, &op, accumulator))
+        escaped_char = 0;
+    } else if (accumulator == 0)
+      _GD_SetError(D, GD_E_FORMAT, GD_E_FORMAT_CHARACTER, p->file, p->line,
+          NULL);
+    else {
+      *(op++) = (char)accumulator;
+      escaped_char = 0;
+    }
+    acc_mode = ACC_MODE_NONE;
+  }
   *op = '\0';
 
   if (quotated || escaped_char) {
